@@ -1,7 +1,8 @@
 (* C01  GMM log-likelihood is the log of a normalised diagonal-Gaussian mixture density.
    Only statements here; every proof is `exact <lemma of Proofs/GMMLik.v>`. *)
 From Coq Require Import Reals List.
-From BLE Require Import Num.InstR Model.GMM Proofs.RLemmas Proofs.GMMLik.
+From Coquelicot Require Import Coquelicot.
+From BLE Require Import Num.InstR Model.GMM Proofs.RLemmas Proofs.GMMLik Proofs.GaussInt.
 Import ListNotations MR.
 Open Scope R_scope.
 
@@ -53,6 +54,14 @@ Print Assumptions C01_lse_bounds.
 Theorem C01_density_positive (m : gmm) (x : list R) : wf_gmm (length x) m -> 0 < mixture_density m x.
 Proof. exact (mixture_density_pos m x). Qed.
 Print Assumptions C01_density_positive.
+
+(* "integrates to one": every normalised one-dimensional Gaussian factor integrates to one over R - reduced, by the
+   affine substitution, to the textbook integral of exp(-t^2/2) (= sqrt(2 pi)), which Coquelicot does not provide and
+   which is therefore a HYPOTHESIS of this theorem (std_gauss_integral), not an axiom *)
+Theorem C01_gaussian_factor_integrates_to_one_partial (mu v : R) : 0 < v -> std_gauss_integral ->
+  is_RInt_gen (fun x => gauss1 x mu v) (Rbar_locally m_infty) (Rbar_locally p_infty) 1.
+Proof. exact (gauss1_integral_partial mu v). Qed.
+Print Assumptions C01_gaussian_factor_integrates_to_one_partial.
 
 Example C01_nonvacuous : wf_gmm 2 {| ws := [/4; 3/4]; mus := [[0; 0]; [4; 4]]; vars := [[1; 1]; [2; /2]] |}.
 Proof. exact wf_example. Qed.
